@@ -89,6 +89,8 @@ class Imputer(_SeriesToSeriesTransformer):
         self.check_is_fitted()
         self._check_method()
         Z = check_series(Z)
+        # values are filled in a copy, never in the caller's data
+        Z = Z.copy()
 
         # replace missing_values with np.nan
         if self.missing_values:
